@@ -214,7 +214,9 @@ pub fn run_determinism(scn: &Scenario, prop: &str, _explore: bool) -> RunResult 
         }
     }
     res.evals = 1;
-    if !base.ok || base.history_violations > 0 {
+    // A history that disagrees with the reference model in the base environment (another
+    // property's business) can still be compared with itself under the other environments.
+    if !base.ok {
         res.inconclusive = true;
         res.wall_ms = shim::real_ms() - t0;
         return res;
@@ -226,7 +228,7 @@ pub fn run_determinism(scn: &Scenario, prop: &str, _explore: bool) -> RunResult 
     for k in which.iter().filter(|k| **k != 0) {
         let o = &outs[k];
         let name = VARIANTS[*k];
-        if !o.ok || o.history_violations > 0 {
+        if !o.ok || (o.history_violations > 0 && base.history_violations == 0) {
             // with short I/O injected the history must still run exactly as without (metamorphic)
             res.violations.push(ViolationRec { props: vec!["C23".into()], oracle: "variant-runs".into(), sig: name.to_string(), msg: format!("the history that ran cleanly in the base environment did not under `{name}`: {} ({} model violations)", o.note, o.history_violations), op: 0 });
             continue;
